@@ -24,6 +24,7 @@ SHAPES = {
     'disabled':      (['>>> # DISABLE_DOCTEST', '>>> print(1)', '2'], 'disabled'),
     'compile_error': (['>>> return 5'], 'failed'),
     'late_failure':  (['>>> print(1)', '1', '>>> print(2)', '3'], 'failed'),
+    'needs_option':  (['>>> print("a b c")', 'abc'], 'option'),       # passes exactly when +IGNORE_WHITESPACE is a default option
     'skip_then_pass': (['>>> print(1)  # xdoctest: +SKIP', '2', '>>> print(3)', '3'], 'passed'),
 }
 
@@ -46,6 +47,49 @@ def gen_module(rnd, n_funcs):
     return '\n'.join(lines) + '\n', expect
 
 
+def one_module(runner, core, path, d, src, expect0, src_root, with_option):
+    """Problem text or None for one module under one option setting."""
+    conf = {'default_runtime_state': {'IGNORE_WHITESPACE': True}} if with_option else {}
+    expect = {k: (('passed' if with_option else 'failed') if v == 'option' else v) for k, v in expect0.items()}
+    # ---- native
+    native = {}
+    for ex in core.parse_doctestables(path, style='freeform', analysis='static'):
+        ex.mode = 'native'
+        ex.config.update(conf)
+        if ex.is_disabled():
+            continue
+        s = ex.run(on_error='return', verbose=0)
+        native[ex.unique_callname] = 'failed' if s['failed'] else ('skipped' if s['skipped'] else 'passed')
+    summary = runner.doctest_module(path, command='all', style='freeform', verbose=0, config=dict(conf))
+    native_failed = summary['n_failed'] > 0
+    # ---- pytest
+    env = dict(os.environ, PYTHONPATH=src_root + os.pathsep + os.environ.get('PYTHONPATH', ''))
+    proc = subprocess.run([sys.executable, '-m', 'pytest', '--xdoctest', '--xdoctest-style=freeform', '-p', 'no:cacheprovider',
+                           '-v', '--no-header'] + (['--xdoctest-options=+IGNORE_WHITESPACE'] if with_option else []) + [path],
+                          cwd=d, env=env, capture_output=True, text=True, timeout=300)
+    pyt = {}
+    for m in re.finditer(r'^\S+::(func\d+:\d+)\s+(PASSED|FAILED|SKIPPED)', proc.stdout, re.M):
+        pyt[m.group(1)] = m.group(2).lower()
+    opt = ' (default option +IGNORE_WHITESPACE)' if with_option else ''
+    for ident, outcome in sorted(expect.items()):
+        p_exp = 'skipped' if outcome == 'disabled' else outcome
+        n_exp = None if outcome == 'disabled' else outcome
+        if native.get(ident) != n_exp:
+            return '%s: native runner reports %r, constructed outcome %r%s' % (ident, native.get(ident), outcome, opt), proc
+        if pyt.get(ident) != p_exp:
+            return '%s: pytest reports %r, constructed outcome %r (native: %r)%s' % (ident, pyt.get(ident), outcome, native.get(ident), opt), proc
+    counts = {o: sum(1 for v in expect.values() if v == o) for o in ('passed', 'failed', 'skipped')}
+    got_counts = {'passed': summary.get('n_passed'), 'failed': summary.get('n_failed'), 'skipped': summary.get('n_skipped')}
+    if got_counts != counts or summary.get('n_total') != sum(counts.values()) or len(summary.get('failed', [])) != counts['failed']:
+        return 'C10: native tallies %r (n_total %r, %d listed as failed), constructed %r%s' % (
+            got_counts, summary.get('n_total'), len(summary.get('failed', [])), counts, opt), proc
+    any_failed = counts['failed'] > 0
+    if (proc.returncode != 0) != any_failed or native_failed != any_failed:
+        return 'failure signalling differs: pytest exit %d, native n_failed > 0 is %r, some doctest failed by construction: %r%s' % (
+            proc.returncode, native_failed, any_failed, opt), proc
+    return None, proc
+
+
 def run(eng, tier, seed):
     import importlib
     runner = importlib.import_module('xdoctest.runner')
@@ -58,56 +102,23 @@ def run(eng, tier, seed):
     n_mod = 2 if tier == 'quick' else 12
     try:
         for i in range(n_mod):
-            src, expect = gen_module(rnd, 8)
+            src, expect0 = gen_module(rnd, 8)
             d = os.path.join(tmp, 'm%d' % i)
             os.makedirs(d)
             path = os.path.join(d, 'agree_mod_%d.py' % i)
             with open(path, 'w') as f:
                 f.write(src)
-            # ---- native
-            native = {}
-            for ex in core.parse_doctestables(path, style='freeform', analysis='static'):
-                ex.mode = 'native'
-                if ex.is_disabled():
-                    continue
-                s = ex.run(on_error='return', verbose=0)
-                native[ex.unique_callname] = 'failed' if s['failed'] else ('skipped' if s['skipped'] else 'passed')
-            summary = runner.doctest_module(path, command='all', style='freeform', verbose=0)
-            native_failed = summary['n_failed'] > 0
-            # ---- pytest
-            env = dict(os.environ, PYTHONPATH=src_root + os.pathsep + os.environ.get('PYTHONPATH', ''))
-            proc = subprocess.run([sys.executable, '-m', 'pytest', '--xdoctest', '--xdoctest-style=freeform', '-p', 'no:cacheprovider',
-                                   '-v', '--no-header', path], cwd=d, env=env, capture_output=True, text=True, timeout=300)
-            pyt = {}
-            for m in re.finditer(r'^\S+::(func\d+:\d+)\s+(PASSED|FAILED|SKIPPED)', proc.stdout, re.M):
-                pyt[m.group(1)] = m.group(2).lower()
-            n += 1
-            problem = None
-            for ident, outcome in sorted(expect.items()):
-                p_exp = 'skipped' if outcome == 'disabled' else outcome
-                n_exp = None if outcome == 'disabled' else outcome
-                if native.get(ident) != n_exp:
-                    problem = '%s: native runner reports %r, constructed outcome %r' % (ident, native.get(ident), outcome)
+            for with_option in ((False, True) if (i % 2 == 0 or tier != 'quick') else (False,)):
+                problem, proc = one_module(runner, core, path, d, src, expect0, src_root, with_option)
+                n += 1
+                if problem is not None:
+                    cex = {'module_source': src, 'problem': problem, 'pytest_tail': proc.stdout[-1500:]}
                     break
-                if pyt.get(ident) != p_exp:
-                    problem = '%s: pytest reports %r, constructed outcome %r (native: %r)' % (ident, pyt[ident], outcome, native.get(ident))
-                    break
-            if problem is None:
-                counts = {o: sum(1 for v in expect.values() if v == o) for o in ('passed', 'failed', 'skipped')}
-                got_counts = {'passed': summary.get('n_passed'), 'failed': summary.get('n_failed'), 'skipped': summary.get('n_skipped')}
-                if got_counts != counts or summary.get('n_total') != sum(counts.values()) or len(summary.get('failed', [])) != counts['failed']:
-                    problem = 'C10: native tallies %r (n_total %r, %d listed as failed), constructed %r' % (
-                        got_counts, summary.get('n_total'), len(summary.get('failed', [])), counts)
-            any_failed = any(o == 'failed' for o in expect.values())
-            if problem is None and ((proc.returncode != 0) != any_failed or native_failed != any_failed):
-                problem = 'failure signalling differs: pytest exit %d, native n_failed > 0 is %r, some doctest failed by construction: %r' % (
-                    proc.returncode, native_failed, any_failed)
-            if problem is not None:
-                cex = {'module_source': src, 'problem': problem, 'pytest_tail': proc.stdout[-1500:]}
+            if cex is not None:
                 break
     finally:
         shutil.rmtree(tmp, ignore_errors=True)
     return {'bounded': [{'name': 'C15.pytest-vs-native',
-                         'bound': '%d generated modules of 8 doctests with constructed outcomes (12 shapes), freeform style, pytest in a '
-                                  'sub-process vs the native runner' % n_mod,
+                         'bound': '%d generated modules of 8 doctests with constructed outcomes (13 shapes), freeform style, without and with a '
+                                  'default directive option (--xdoctest-options / config), pytest in a sub-process vs the native runner' % n_mod,
                          'evaluations': n, 'counterexample': cex}]}
